@@ -1026,8 +1026,10 @@ package gorums
 // C06.f / C10.b: no request is given up (answered with an error without a send attempt) or sent
 // unless, for this very request, the sender either saw the node connected (through isConnected, or by
 // reading both flags itself: established and not broken) or tried to (re)connect.
+// C09.h / C10.f: the sender goroutine ends only after it saw its node closed - whatever a send
+// failed with, the node keeps being served.
 //@ func (*channel).sender
-//@   props C03 C05 C06 C07 C10 C12 C18
+//@   props C03 C05 C06 C07 C10 C12 C18 C09
 //@   mode concurrent
 //@   requires c != nil && c.node != nil && c.parentCtx != nil && streamDownErr != nil
 //@   ghost pending Bool = false
@@ -1039,6 +1041,7 @@ package gorums
 //@   ghost lastBrk Bool = false
 //@   ghost nsendAttempt Int = 0
 //@   ghost drained Bool = false
+//@   ghost sawClosed Bool = false
 //@   ghost cur request = zero("request")
 //@   loop "for {"
 //@     invariant[C07.b] !pending
@@ -1067,6 +1070,9 @@ package gorums
 //@     after set drained = true
 //@   on return
 //@     assert[C12.d] drained
+//@     assert[C09.h,C10.f] sawClosed
+//@   on recv "c.parentCtx.Done()"
+//@     set sawClosed = true
 //@   on call "c.connect"
 //@     assert[C10.a] pending
 //@     after set tried = true
